@@ -2,7 +2,7 @@
 EXTENDS SchemaCopy, Json, IOUtils, SequencesExt
 Feats == {"iface_of_iface", "custom_roots", "mutation", "subscription", "union", "enum_deprecated", "input_defaults", "arg_defaults",
           "descriptions", "deprecations", "repeatable_directive", "directive_args", "specified_by", "nested_wrappers", "tricky_strings",
-          "numbers", "schema_description", "object_defaults"}
+          "numbers", "schema_description", "object_defaults", "directive_named_like_codegen_helper"}
 NeedsOf == [ iface_of_iface |-> {<<"interface", "interfaces">>, <<"object", "interfaces">>},
              custom_roots |-> {<<"schema", "query">>, <<"schema", "mutation">>},
              mutation |-> {<<"schema", "mutation">>}, subscription |-> {<<"schema", "subscription">>},
@@ -21,7 +21,9 @@ NeedsOf == [ iface_of_iface |-> {<<"interface", "interfaces">>, <<"object", "int
              tricky_strings |-> {<<"argument", "default_value">>, <<"field", "description">>},
              numbers |-> {<<"argument", "default_value">>},
              schema_description |-> {<<"schema", "description">>},
-             object_defaults |-> {<<"input_field", "default_value">>, <<"argument", "default_value">>} ]
+             object_defaults |-> {<<"input_field", "default_value">>, <<"argument", "default_value">>},
+             \* the schema declares its OWN directives called mixin / include-like names: they are part of the schema
+             directive_named_like_codegen_helper |-> {<<"schema", "directives">>, <<"directive", "args">>, <<"directive", "locations">>} ]
 CopiedAsBuilt == UNION {NeedsOf[f] : f \in Feats} \cup Base
 AllFormats == {"py", "graphql", "gql"}
 K == IF IOEnv.MAXON = "3" THEN 3 ELSE IF IOEnv.MAXON = "18" THEN 18 ELSE 2
